@@ -72,6 +72,9 @@ func c19Spec(vendor, class string, devs []string, tag string, variety int, globa
 	for i, d := range devs {
 		e := specs.ContainerEdits{Env: []string{"FROM=" + tag, "DEV=" + d}}
 		switch (variety + i) % 4 {
+		case 0:
+			// strings whose YAML rendering needs block scalars with empty lines / trailing line breaks / leading blanks
+			e.Env = append(e.Env, "MOTD=first paragraph\n\nsecond paragraph", "TAIL=x\n\n", "LEAD=  two leading blanks", "HASH=a # b", "COLON=a: b")
 		case 1:
 			e.DeviceNodes = []*specs.DeviceNode{c19DevNode(10*variety + i)}
 		case 2:
